@@ -706,6 +706,168 @@ print p1.v
 print p0 is p3
 print ps.len()
 """),
+    ("list_field_overwritten_with_equal_but_distinct_list", """
+class Bag {
+  items: [int...]
+  constructor(self) {
+    self.items = []
+  }
+  fn put(self, k: int) {
+    self.items.push(k)
+  }
+  fn adopt(self, other: Self) {
+    self.items = other.items
+  }
+  fn size(self) -> int {
+    return self.items.len()
+  }
+}
+a = Bag()
+b = Bag()
+a.put(1)
+b.put(1)
+print a.items is b.items
+a.adopt(b)
+print a.items is b.items
+b.put(2)
+print a.items
+print a.size()
+c = Bag()
+d = Bag()
+c.items = d.items
+d.put(7)
+print c.items
+print c.items is d.items
+e = Bag()
+e.put(9)
+e.adopt(b)
+b.put(3)
+print e.items
+n: [int...] = [1, 2, 3]
+b.items = n
+n.push(4)
+print b.items
+print e.items
+"""),
+    ("map_field_overwritten_with_equal_but_distinct_map", """
+class Reg {
+  m: map[str, int]
+  constructor(self) {
+    self.m = map[str, int] {}
+  }
+  fn adopt(self, other: Self) {
+    self.m = other.m
+  }
+}
+a = Reg()
+b = Reg()
+print a.m is b.m
+a.adopt(b)
+print a.m is b.m
+t = b.m
+t["k"] = 4
+print (a.m)["k"]
+c = Reg()
+nm = map[str, int] { "k": 4 }
+c.m = nm
+d = Reg()
+dm = d.m
+dm["k"] = 4
+d.m = nm
+nm["z"] = 1
+print (d.m)["z"]
+print (c.m)["z"]
+print d.m is c.m
+"""),
+    ("pure_operators_on_field_reads_leave_object_unchanged", """
+class Account {
+  balance: int
+  frozen: bool
+  hist: [int...]
+  constructor(self, balance: int) {
+    self.balance = balance
+    self.frozen = false
+    self.hist = [balance]
+  }
+  fn debt(self) -> int {
+    return -self.balance
+  }
+  fn usable(self) -> bool {
+    return !self.frozen
+  }
+  fn firstneg(self) -> int {
+    return -(self.hist)[0]
+  }
+  fn mix(self) -> int {
+    return -self.balance + self.balance * 2 - (-self.balance)
+  }
+  fn deposit(self, k: int) {
+    self.balance += k
+  }
+}
+acc = Account(50)
+alias = acc
+print acc.debt()
+print acc.balance
+print alias.balance
+print acc.usable()
+print acc.frozen
+print acc.usable()
+print acc.firstneg()
+print acc.hist
+print acc.mix()
+print acc.balance
+acc.deposit(5)
+print alias.balance
+other = Account(7)
+x = -other.balance
+print x
+print other.balance
+y = !other.frozen
+print y
+print other.frozen
+z = -(other.hist)[0]
+print z
+print other.hist
+"""),
+    ("field_read_then_reassigned_in_same_expression", """
+class Cell {
+  n: int
+  constructor(self, n: int) {
+    self.n = n
+  }
+  fn add(self, k: int) {
+    self.n += k
+  }
+}
+class Slot {
+  item: Cell
+  constructor(self, item: Cell) {
+    self.item = item
+  }
+  fn swap(self, other: Cell) -> Cell {
+    old = self.item
+    self.item = other
+    return old
+  }
+  fn weigh(self, x: Cell, y: Cell) -> int {
+    return x.n * 100 + y.n
+  }
+}
+b = Cell(2)
+c = Cell(3)
+s = Slot(b)
+print s.weigh(s.item, s.swap(c))
+t = s.swap(b)
+print s.item is s.swap(c)
+t = s.swap(b)
+s.item.add(s.swap(c).n)
+print b.n
+print c.n
+t = s.swap(b)
+print s.item.n * 10 + s.swap(c).n
+print s.weigh(s.swap(b), s.item)
+"""),
     ("object_returned_from_method_of_other_object", """
 class B {
   w: int
@@ -822,7 +984,7 @@ def work(item):
 def run(ctx):
     out = core.Outcome()
     items = [("cat", c) for c in CATALOGUE]
-    nrand = ctx.n(1500, 30000)
+    nrand = ctx.n(4000, 30000)
     base = ctx.rng("histories").randrange(1 << 40)
     discard_hazards = dynamic_lookup_defect_listed()
     items += [("rand", (base + i, discard_hazards)) for i in range(nrand)]
